@@ -337,3 +337,158 @@ _run_c06_prev2 = run
 def run(res, facts, tier):
     _run_c06_prev2(res, facts, tier)
     r6_replace(res, facts)
+
+
+# ----------------------------------------------------------------------------------------------- R7: the re-initialisation is not conditional on something else
+R7_REVIEWED = {
+    'XalanDOMStringCache::m_allocator': 'the arena behind the cached strings: reset() returns every busy string to the available list (or destroys it beyond the size limit); the arena holds '
+                                        'memory, not state a transformation can observe',
+}
+
+
+def r7_unconditional(res, facts):
+    """C06-R1 asks whether the reset closure CAN re-initialise a field (reachability).  It must DO so whenever the transformer is reset: from ~EnsureReset a resetting write has to
+    be reached through calls and statements that lie on every path of their function, or under conditions that are about the field itself (if (m_x != 0) m_x->reset();
+    while (!m_busy.empty()) ...).  A reset that runs only when some OTHER state happens to be set leaves the field as the aborted transformation left it."""
+    from ..mast import CFG, calls, callee
+    r = res.rule('C06-R7', 'every field the reset closure re-initialises is re-initialised whenever the transformer is reset: a resetting write is reached from ~EnsureReset through '
+                 'calls and statements on every path of their function, or under conditions that mention only that field', floor=40)
+    cg = facts.cg
+    roots = facts.fn('XalanTransformer::EnsureReset::~EnsureReset')
+    edges = collections.defaultdict(lambda: collections.defaultdict(set))
+    for c in facts.calls:
+        edges[c['from']][c['toName'].split('::')[-1]].add(c['to'])
+    cfgs = {}
+
+    def cfg_of(u):
+        if u not in cfgs:
+            a = facts.ast(u)
+            if a is None or a.get('body') is None:
+                cfgs[u] = None
+            else:
+                cfg = CFG(a)
+                mn = set()
+                for n in cfg.nodes:
+                    if n.ast is None:
+                        continue
+                    if cfg.exit.id not in cfg.reachable_avoiding([cfg.entry], lambda m2, n=n: m2 is n):
+                        mn.add(n.id)
+                cfgs[u] = (cfg, mn, common.must_conds(cfg))
+        return cfgs[u]
+    def controlling(a, stmt):
+        """texts of the conditions of the if / loop statements the statement is nested in (for a disjunction the must-analysis has no single atom)"""
+        out = []
+
+        def go(x, acc):
+            if x is stmt or (isinstance(x, dict) and any(y is stmt for y in ([x.get('e')] if x.get('k') in ('ExprStmt',) else []))):
+                out.extend(acc); return True
+            if not isinstance(x, dict):
+                return False
+            k = x.get('k')
+            if k == 'If':
+                for br in ('then', 'else'):
+                    if x.get(br) is not None and any(y is stmt for y in walk(x[br])):
+                        return go(x[br], acc + [pp(x['cond'])[:100]])
+                return False
+            if k in ('While', 'For', 'Do'):
+                if x.get('body') is not None and any(y is stmt for y in walk(x['body'])):
+                    return go(x['body'], acc + [pp(x.get('cond'))[:100] if x.get('cond') is not None else '<loop>'])
+                return False
+            if k == 'Compound':
+                for c in x['c']:
+                    if c is stmt or any(y is stmt for y in walk(c)):
+                        return go(c, acc)
+                return False
+            out.extend(acc)
+            return True
+        go(a['body'], [])
+        return out
+    # G[u]: the conditions (texts) under which u runs when the transformer is reset; frozenset() = always
+    G = {}
+    work = [(u, frozenset()) for u in roots]
+    while work:
+        u, g = work.pop(0)
+        if u in G and (len(G[u]) <= len(g)):
+            continue
+        G[u] = g
+        c = cfg_of(u)
+        if c is None:
+            continue
+        cfg, mn, must = c
+        for n in cfg.nodes:
+            if n.ast is None or n.kind not in ('stmt', 'cond'):
+                continue
+            cs = list(calls(n.ast))
+            if not cs:
+                continue
+            extra = frozenset() if n.id in mn else frozenset(pp(common.norm_atom(at, br)[0])[:80] for at, br in must.get(n.id, []))
+            if n.id not in mn and not extra:
+                extra = frozenset(controlling(facts.ast(u), n.ast) or ['<some path>'])
+            for call in cs:
+                nm = call.get('n') or callee(call).split('::')[-1]
+                for t in edges[u].get(nm, ()):
+                    ng = g | extra
+                    if t not in G or len(ng) < len(G[t]):
+                        work.append((t, ng))
+    if len(G) < 100:
+        raise AnalysisBroken('only %d functions are reached from ~EnsureReset' % len(G))
+    K = long_lived_classes(facts)
+    rreach = cg.reach(roots)
+    reach = cg.reach(facts.fn('XalanTransformer::doTransform'))
+    ctor_dtor = {k for k, f in facts.F.items() if f.get('kind') in ('ctor', 'dtor')}
+    rs = collections.defaultdict(list); ex = set()
+    for w in facts.W:
+        cls = w['field'].rsplit('::', 1)[0]
+        if cls not in K:
+            continue
+        if w['from'] in rreach and (w['kind'] == 'assign' or (w['kind'].startswith('call:') and w['kind'][5:] in CLEARING | {'pop_back'})):
+            rs[w['field']].append(w)            # pop_back: "while (!m_x.empty()) { ...; m_x.pop_back(); }" empties the container
+        if w['from'] in reach and w['from'] not in rreach and w['from'] not in ctor_dtor:
+            ex.add(w['field'])
+    for fld, ws in sorted(rs.items()):
+        if fld not in ex:
+            continue
+        name = fld.split('::')[-1]
+        sfld = short(fld)
+        if sfld in R7_REVIEWED:
+            r.ok(sfld, 'reviewed: ' + R7_REVIEWED[sfld])
+            continue
+        best = None
+        for w in ws:
+            u = w['from']
+            if u not in G:
+                continue
+            c = cfg_of(u)
+            if c is None:
+                continue
+            cfg, mn, must = c
+            line = int(w['loc'].rsplit(':', 1)[-1])
+            nodes = [n for n in cfg.nodes if n.ast is not None and n.line is not None and abs(n.line - line) <= 2 and
+                     any(y.get('k') == 'Member' and y.get('m') == name for y in walk(n.ast))]
+            if not nodes:
+                nodes = [n for n in cfg.nodes if n.ast is not None and n.line == line]
+            for n in nodes:
+                conds = set(G[u])
+                if n.id not in mn:
+                    local = [pp(common.norm_atom(at, br)[0])[:80] for at, br in must.get(n.id, [])]
+                    conds |= set(local) if local else set(controlling(facts.ast(u), n.ast) or ['<some path>'])
+                foreign = sorted(x for x in conds if name not in x)
+                if best is None or len(foreign) < len(best[0]):
+                    best = (foreign, w)
+        if best is None:
+            r.violation('field %s' % sfld, 're-initialised only in functions the destructor of EnsureReset does not reach by calls (only through code that is itself conditional)',
+                        ws[0]['loc'].replace('/repo/', ''))
+        elif best[0]:
+            r.violation('field %s' % sfld, 're-initialised (%s in %s) only when %s: after a transformation that leaves that condition false the field keeps what the transformation wrote' %
+                        (best[1]['kind'], short(facts.name.get(best[1]['from'], '?')), ' and '.join(best[0][:3])), best[1]['loc'].replace('/repo/', ''))
+        else:
+            r.ok(sfld, 'unconditionally, or under a test of the field itself')
+    return r
+
+
+_run_c06_prev7 = run
+
+
+def run(res, facts, tier):
+    _run_c06_prev7(res, facts, tier)
+    r7_unconditional(res, facts)
